@@ -397,6 +397,37 @@ pub fn gen_c05(r: &mut Rng, id: usize, thorough: bool) -> Group {
         g.labels.push("kind:unicode-escapes".into());
         return g;
     }
+    if r.chance(4) {
+        // an invalid UTF-8 byte after a run of valid text of every length and alignment (1-, 2-, 3-, 4-byte characters in front of
+        // it), under the policies that have to FORMAT the error
+        let unit = r.ps(&["a", "é", "€", "😃", "ab€"]);
+        let k = r.range(0, 40);
+        let pad = r.ps(&["", "a", "ab", "abc"]);
+        let bad: &[u8] = *r.pick(&[&[0xFFu8][..], &[0xC3][..], &[0xE2, 0x82][..], &[0xF0, 0x9F, 0x98][..], &[0x80][..], &[0xED, 0xA0, 0x80][..]]);
+        let mut bytes: Vec<u8> = vec![];
+        let wrap = r.below(3);
+        if wrap == 1 { bytes.extend_from_slice(b"[1, "); }
+        if wrap == 2 { bytes.extend_from_slice(b"{\"k\": "); }
+        bytes.push(b'"');
+        bytes.extend_from_slice(unit.repeat(k).as_bytes());
+        bytes.extend_from_slice(pad.as_bytes());
+        bytes.extend_from_slice(bad);
+        bytes.extend_from_slice(r.ps(&["", "z", "€"]).as_bytes());
+        bytes.push(b'"');
+        if wrap == 1 { bytes.extend_from_slice(b"]"); }
+        if wrap == 2 { bytes.extend_from_slice(b"}"); }
+        bytes.extend_from_slice(b" 7\n");
+        let mut c = case(format!("C05-{id}"));
+        c.spec.on_error = Some(r.ps(&["stderr", "stdout", "panic", "ignore"]).to_string());
+        if r.chance(25) {
+            // the same bytes as a key / through parse
+            c.spec.selects.push("(size .)=x".into());
+        }
+        c.sources.push(stdin_src(bytes));
+        let mut g = Group::new(vec![c]);
+        g.labels.push("kind:invalid-utf8-in-long-string".into());
+        return g;
+    }
     if r.chance(6) {
         // more than 20 numbers around the edges of u64 / i64 / 2^53, where integer and double comparison meet:
         // std's sort panics on a comparison that is not a total order, only on slices longer than 20
@@ -812,7 +843,7 @@ pub fn gen_c09(r: &mut Rng, id: usize) -> Group {
 
 /// thorough only: EVERY ordered pair of the pool's spellings as a stream `a b a b` under --unique, with what `=`
 /// says about the pair
-pub const C10_POOL_SIZE: usize = 49;
+pub const C10_POOL_SIZE: usize = 60;
 pub fn c10_exhaustive_size() -> usize {
     C10_POOL_SIZE * C10_POOL_SIZE
 }
@@ -863,7 +894,10 @@ pub fn gen_c10(r: &mut Rng, id: usize, thorough: bool) -> Group {
                               "0", "0.0", "0e0", "0.00", "0E3", "[0,1]", "[0.0,1]", "{\"a\":0}", "{\"a\":0.0}",
                               // neighbouring doubles: different numbers, however close
                               "0.3", "0.30000000000000004", "[0.3]", "[0.30000000000000004]", "{\"a\":0.3}", "{\"a\":0.30000000000000004}", "1e-20", "2e-20",
-                              "0.1", "0.10000000000000002", "3e-1"];
+                              "0.1", "0.10000000000000002", "3e-1",
+                              // different values made of the same scalars in the same order: nested versus hoisted, split versus joined
+                              "{\"a\":{\"b\":1}}", "{\"a\":{},\"b\":1}", "[[1,2],3]", "[[1],2,3]", "[[1,2,3]]", "[\"ab\",\"c\"]", "[\"a\",\"bc\"]",
+                              "{\"k\":{\"x\":1,\"y\":2}}", "{\"k\":{\"x\":1},\"y\":2}", "[[],[1]]", "[[1],[]]"];
     assert_eq!(spell_pool.len(), C10_POOL_SIZE);
     let n = if forced.is_some() { 4 } else { r.range(0, 40) };
     let mut text = String::new();
@@ -961,8 +995,13 @@ pub fn stateless_spec(r: &mut Rng) -> Spec {
     let mut s = gen_pipe_spec(r, &p);
     if r.chance(40) {
         let eo = ExprOpts { bindings: true, ..Default::default() };
-        let mut g = Gen::new(r, &eo);
-        let e = g.expr(Ty::Any, 2);
+        // (RESOURCE RULE: `range` applied to anything but a small literal can ask for 2^64 items)
+        let mut e = { let mut g = Gen::new(r, &eo); g.expr(Ty::Any, 2) };
+        for _ in 0..20 {
+            if !crate::oracle_b::risky_range(&e) { break; }
+            e = { let mut g = Gen::new(r, &eo); g.expr(Ty::Any, 2) };
+        }
+        if crate::oracle_b::risky_range(&e) { e = ".k".into(); }
         s.selects.push(format!("{e}=gen"));
         if s.style.as_deref() == Some("csv") && s.selects.is_empty() {
             s.style = None;
@@ -1045,6 +1084,9 @@ pub fn gen_c11(r: &mut Rng, id: usize) -> Group {
         s.sets.push("@cmp=(> . ^.k)".into());
         let pool = ["(map .l (+ . ^.k))", "(filter .l (> . ^.k))", "(sort_by .l (* . ^.sign))", "(match .s .p)", "(map .l @addk)", "(filter .l @cmp)",
                     "(group_by .l (stringify (> . ^.k)))", "(map .l (| . (+ . ^^^.k)))", "(extract_regex_group .s .p 0)"];
+        if r.chance(50) {
+            s.cache = Some(r.range(1, 4));
+        }
         if r.chance(30) {
             s.split = Some(".l".into());
             s.selects.push("(+ . ^.k)=x".into());
@@ -1159,9 +1201,11 @@ pub fn gen_c12(r: &mut Rng, id: usize) -> Group {
     c.spec.selects.push(format!("{plain}=plain"));
     if r.chance(45) {
         // --set forms: variable and macro predefined on the command line
-        c.spec.sets.push(format!("pv={x}"));
-        c.spec.sets.push(format!("@pm={body}"));
-        c.spec.selects.push(format!("(map .arr (push [] :pv @pm))=bound2"));
+        // (now and then the variable and the macro carry the SAME name: `:n` and `@n` are two namespaces)
+        let (vn, mn) = if r.chance(35) { ("same", "same") } else { ("pv", "pm") };
+        c.spec.sets.push(format!("{vn}={x}"));
+        c.spec.sets.push(format!("@{mn}={body}"));
+        c.spec.selects.push(format!("(map .arr (push [] :{vn} @{mn}))=bound2"));
         c.spec.selects.push(format!("(map .arr (push [] {x} {body}))=plain2"));
     }
     if r.chance(30) {
@@ -1349,19 +1393,28 @@ pub fn gen_c13(r: &mut Rng, id: usize) -> Group {
             c.sources.push(stdin_src(text.clone().into_bytes()));
             c
         };
+        let via_macro = r.chance(40);
+        let mk = |name: &str| {
+            let mut c = mk(name);
+            if via_macro && name != "first" {
+                c.spec.sets.push(format!("@pm={e}"));
+            }
+            c
+        };
+        let used: &str = if via_macro { "@pm" } else { e };
         let mut first = mk("first");
         first.spec.selects.push(format!("{e}=x"));
         let mut later = mk("later");
         later.spec.selects.push(".=e".into());
         later.spec.selects.push("(+ . 1)=f".into());
-        later.spec.selects.push(format!("{e}=x"));
+        later.spec.selects.push(format!("{used}=x"));
         let mut sorted = mk("sort");
         sorted.spec.selects.push(".=e".into());
-        sorted.spec.selects.push(format!("{e}=x"));
-        sorted.spec.sorts.push(e.to_string());
+        sorted.spec.selects.push(format!("{used}=x"));
+        sorted.spec.sorts.push(used.to_string());
         let mut grouped = mk("group");
         grouped.spec.selects.push(".=e".into());
-        grouped.spec.group = Some(Some(e.to_string()));
+        grouped.spec.group = Some(Some(used.to_string()));
         let mut g = Group::new(vec![first, later, sorted, grouped]);
         g.tag = "parentpos".into();
         g.nontrivial = true;
@@ -1423,15 +1476,19 @@ pub fn gen_c13(r: &mut Rng, id: usize) -> Group {
         return g;
     }
     // the same expression canonical vs respelled (alias, commas, padding, dot sugar), in the five positions
-    let seed = r.next();
     let ty = *r.pick(&[Ty::Any, Ty::Str, Ty::Bool, Ty::Arr, Ty::Num]);
     let depth = r.range(1, 4);
-    let canon = {
+    // (RESOURCE RULE: `range` applied to anything but a small literal can ask for 2^64 items: drawn again)
+    let mut canon = String::new();
+    for attempt in 0..30 {
+        let seed = r.next();
         let eo = ExprOpts { respell: false, ill_typed: 10, bindings: false, ..Default::default() };
         let mut rr = Rng::new(seed);
         let mut g = Gen::new(&mut rr, &eo);
-        g.expr(ty, depth)
-    };
+        canon = g.expr(ty, depth);
+        if !crate::oracle_b::risky_range(&canon) { break; }
+        if attempt == 29 { canon = "(size .)".into(); }
+    }
     // respelling must make the same structural choices: same rng stream is not guaranteed once
     // spelling draws differ, so respell textually from the canonical form instead
     let respelled = respell(r, &canon);
@@ -1913,6 +1970,7 @@ pub fn corrupt(r: &mut Rng, e: &str) -> (String, &'static str) {
             if e.contains('(') { (e.replacen("(", "(no_such_function_", 1), "unknown-name") }
             else { (format!("(no_such_function_ {e})"), "unknown-name") }
         }
+        4 if r.chance(40) => (r.ps(&["(.no_such_method)", "(+ 1 (.lenx))", "(.sizes .)", "(map . (.nope))"]).to_string(), "unknown-method"),
         4 => (format!("{e} garbage("), "trailing-garbage"),
         5 => {
             // arity +1 on the first call
